@@ -148,3 +148,12 @@ Definition rb_dequeue_allocated (r : ring) (count : Z) : outcome ring :=
   if count <=? rb_len r
   then Ok (mkRing (rb_cap r) (rb_store r) (rb_get_idx r count) (rb_len r - count))
   else Panic.
+
+(* The slices the closure API sees (RingBuffer::enqueue_many_with / dequeue_many_with, l.180 / l.240):
+   the largest contiguous unallocated slice (read_at is reset first when the ring is empty) and
+   the largest contiguous allocated slice.  [rb_enqueue_pass] / [rb_dequeue_pass] are these two
+   methods with the callback "copy min(slice length, wanted) elements". *)
+Definition rb_enqueue_window (r : ring) : Z :=
+  let r := if rb_len r =? 0 then mkRing (rb_cap r) (rb_store r) 0 (rb_len r) else r in
+  rb_contiguous_window r.
+Definition rb_dequeue_window (r : ring) : Z := Z.min (rb_len r) (rb_cap r - rb_read_at r).
